@@ -1017,6 +1017,16 @@ def gen1(units, R):
             refusing = None
             if ec.get('k') == 'call' and callee_name(ec) in u.functions and _refuses_only_without_memory(u, u.functions[callee_name(ec)]):
                 refusing = 'T' if negc else 'F'
+            # the status of a helper of the unit that is handed nothing of the documents (a formatter that says whether its buffer was
+            # large enough): whether it can refuse at all is a fact about values - not judged here
+            ecall = ec
+            pc_ = cmp_parts(ec)
+            if pc_ is not None and strip_casts(pc_[0]).get('k') == 'call':
+                ecall = strip_casts(pc_[0])
+            if refusing is None and ecall.get('k') == 'call' and callee_name(ecall) in u.functions and \
+                    not any(x.get('k') == 'ref' and x.get('d') in tainted for a_ in ecall['args'] for x in walk(a_)):
+                raise AnalysisBroken('GEN1: %s: whether differences are reported depends on the status of %s, a helper that is handed nothing '
+                                     'of the documents; whether it can refuse is not evaluated by this rule' % (h.where(e), callee_name(ecall)))
             for (y, l) in cfg.succ[m.id]:
                 if l is not None and l[0] in ('T', 'F') and _range_decides(u, e) == (l[0] != 'T'):
                     continue        # the edge cannot be taken: the comparison is settled by the range of the operand's type
